@@ -121,10 +121,18 @@ impl Oracle for C02 {
 
 pub struct C03 {
     probes: Vec<Lab>,
+    /// quiet: only the results of the history's own kid/kids/data calls are judged and no other
+    /// query is made — the per-call look at every vertex would itself refresh (and so hide)
+    /// whatever the implementation remembers between queries
+    pub quiet: bool,
 }
 impl C03 {
+    pub fn quiet() -> Self {
+        Self { quiet: true, ..Self::new() }
+    }
     pub fn new() -> Self {
         Self {
+            quiet: false,
             probes: vec![
                 Lab::Alpha(0), Lab::Alpha(99), Lab::Greek('x'), Lab::Greek('φ'), Lab::Str("foo".into()), Lab::Str("zz".into()),
                 // twins of pool labels under lossy comparisons
@@ -170,7 +178,19 @@ impl Oracle for C03 {
                     return fail("C03", "kid.wrong_target", s, format!("{} returned {got:?}, expected {want:?}", s.call.render()));
                 }
             }
+            (Ret::Kids(got), Exp::Kids(want)) => {
+                let mut g: Vec<(Lab, usize)> = got.clone();
+                let mut w = want.clone();
+                g.sort();
+                w.sort();
+                if g != w {
+                    return fail("C03", "kids.differ", s, format!("{} returned {got:?}, but the binds since the vertex was created give {want:?}", s.call.render()));
+                }
+            }
             _ => {}
+        }
+        if self.quiet {
+            return None;
         }
         // every present vertex, after every call
         for v in &s.keys_after {
